@@ -1,7 +1,8 @@
 //! decision-DNNF cases: compile a CNF top-down with the REAL StandardDecisionNNFBuilder, optionally negate
 //! the result, condition it on (label, value) and compare truth tables.
 use crate::CaseResult;
-use rsdd::builder::decision_nnf::{DecisionNNFBuilder, StandardDecisionNNFBuilder};
+use rsdd::builder::decision_nnf::{DecisionNNFBuilder, SemanticDecisionNNFBuilder, StandardDecisionNNFBuilder};
+use rsdd::constants::primes;
 use rsdd::builder::TopDownBuilder;
 use rsdd::repr::{BddPtr, Cnf, DDNNFPtr, Literal, VarLabel, VarOrder};
 use serde_json::{json, Value};
@@ -15,26 +16,38 @@ fn eval(p: BddPtr, a: &[bool]) -> bool {
     }
 }
 
-pub fn run(c: &Value) -> CaseResult {
-    let nv = c["nvars"].as_u64().unwrap_or(3) as usize;
-    let clauses: Vec<Vec<Literal>> = c["cnf"].as_array().map(|cs| cs.iter().map(|cl| cl.as_array().map(|ls| ls.iter().map(|l| {
-        let x = l.as_i64().unwrap_or(1);
-        Literal::new(VarLabel::new((x.unsigned_abs() - 1) as u64), x > 0)
-    }).collect()).unwrap_or_default()).collect()).unwrap_or_default();
-    let order: Vec<VarLabel> = c["order"].as_array().map(|a| a.iter().map(|v| VarLabel::new(v.as_u64().unwrap_or(0))).collect()).unwrap_or_default();
-    let cnf = Cnf::new(&clauses);
-    let b = StandardDecisionNNFBuilder::new(VarOrder::new(&order));
+/// no path decides a variable twice
+fn decides_once(p: BddPtr, seen: &mut Vec<u64>) -> Result<(), String> {
+    match p {
+        BddPtr::Reg(n) | BddPtr::Compl(n) => {
+            if seen.contains(&n.var.value()) { return Err(format!("a path decides variable {} twice", n.var.value())); }
+            seen.push(n.var.value());
+            decides_once(n.low, seen)?;
+            decides_once(n.high, seen)?;
+            seen.pop();
+            Ok(())
+        }
+        _ => Ok(()),
+    }
+}
+
+fn run_on<'a, B: DecisionNNFBuilder<'a> + TopDownBuilder<'a, BddPtr<'a>>>(which: &str, b: &'a B, c: &Value, clauses: &[Vec<Literal>], nv: usize) -> CaseResult {
+    let cnf = Cnf::new(clauses);
     let d = b.compile_cnf_topdown(&cnf);
     let nm = 1usize << nv;
     let asg = |m: usize| -> Vec<bool> { (0..nv).map(|i| (m >> i) & 1 == 1).collect() };
     // the compiled diagram must have exactly the CNF's models
+    let mut sat = false;
     for m in 0..nm {
         let a = asg(m);
         let want = clauses.iter().all(|cl| cl.iter().any(|l| a[l.label().value() as usize] == l.polarity()));
+        sat |= want;
         if eval(d, &a) != want {
-            return Err(format!("compile_cnf_topdown: diagram is {} on {:?}, the CNF is {}", eval(d, &a), a, want));
+            return Err(format!("{which} compile_cnf_topdown: diagram is {} on {:?}, the CNF is {}", eval(d, &a), a, want));
         }
     }
+    if d.is_false() != !sat { return Err(format!("{which} compile_cnf_topdown: the CNF is {}satisfiable but the result is{} the false constant", if sat { "" } else { "un" }, if d.is_false() { "" } else { " not" })); }
+    decides_once(d, &mut vec![]).map_err(|e| format!("{which} compile_cnf_topdown: {e}"))?;
     let p = if c["neg"].as_bool().unwrap_or(false) { d.neg() } else { d };
     let (l, v) = (c["lbl"].as_u64().unwrap_or(0) as usize, c["val"].as_bool().unwrap_or(true));
     let r = b.condition(p, VarLabel::new(l as u64), v);
@@ -42,11 +55,24 @@ pub fn run(c: &Value) -> CaseResult {
         let m2 = if v { m | (1 << l) } else { m & !(1 << l) };
         if eval(r, &asg(m)) != eval(p, &asg(m2)) {
             return Err(format!(
-                "condition({}diagram, x{l}={v}) is {} on {:?}; the restricted function is {}",
+                "{which} condition({}diagram, x{l}={v}) is {} on {:?}; the restricted function is {}",
                 if c["neg"].as_bool().unwrap_or(false) { "negated " } else { "" }, eval(r, &asg(m)), asg(m), eval(p, &asg(m2))));
         }
     }
     Ok(())
+}
+
+pub fn run(c: &Value) -> CaseResult {
+    let nv = c["nvars"].as_u64().unwrap_or(3) as usize;
+    let clauses: Vec<Vec<Literal>> = c["cnf"].as_array().map(|cs| cs.iter().map(|cl| cl.as_array().map(|ls| ls.iter().map(|l| {
+        let x = l.as_i64().unwrap_or(1);
+        Literal::new(VarLabel::new((x.unsigned_abs() - 1) as u64), x > 0)
+    }).collect()).unwrap_or_default()).collect()).unwrap_or_default();
+    let order: Vec<VarLabel> = c["order"].as_array().map(|a| a.iter().map(|v| VarLabel::new(v.as_u64().unwrap_or(0))).collect()).unwrap_or_default();
+    let b = StandardDecisionNNFBuilder::new(VarOrder::new(&order));
+    run_on("standard store:", &b, c, &clauses, nv)?;
+    let b2 = SemanticDecisionNNFBuilder::<{ primes::U64_LARGEST }>::new(VarOrder::new(&order));
+    run_on("semantic store:", &b2, c, &clauses, nv)
 }
 
 pub fn candidates(seed: u64) -> Vec<Value> {
@@ -54,6 +80,9 @@ pub fn candidates(seed: u64) -> Vec<Value> {
     let cnfs: Vec<Value> = vec![
         json!([[1, 2], [-2, 3]]), json!([[1, 2, 3]]), json!([[1, -2], [2, -3], [3, -1]]), json!([[1], [2, 3]]),
         json!([[-1, -2], [1, 2], [3, 1]]), json!([[1, 2], [1, 3], [2, 3]]),
+        // unsatisfiable formulas (by propagation, by search), an empty clause, tautological and repeated literals
+        json!([[1], [-1], [2, 3]]), json!([[1, 2], [1, -2], [-1, 3], [-1, -3]]), json!([[], [1, 2, 3]]), json!([[1, -1], [2, 3, 3]]),
+        json!([[-1, 3], [2, 3], [-3, 1]]),
     ];
     let orders = [[0, 1, 2], [0, 2, 1], [1, 0, 2], [1, 2, 0], [2, 0, 1], [2, 1, 0]];
     for cnf in cnfs.iter() {
